@@ -488,7 +488,7 @@ func ruleOptionalCB(c *RC) *RuleResult {
 
 // G-DEREF
 func ruleDeref(c *RC) *RuleResult {
-	r := &RuleResult{Rule: "G-DEREF", Kind: "GUARD", Doc: "a method is called directly on a stored slot only when the slot is known to be non-nil"}
+	r := &RuleResult{Rule: "G-DEREF", Kind: "GUARD", Doc: "a method is called on a stored slot, on one of the lazily built block objects or on what their constructors returned only when it is known to be non-nil"}
 	ss := c.sitesWhere(func(s *Site) bool { return s.Kind == "deref" })
 	if len(ss) == 0 {
 		r.unresolved("dereference of a stored slot")
@@ -496,6 +496,9 @@ func ruleDeref(c *RC) *RuleResult {
 	c.guardRule(r, ss, c.apiList, func(s *Site, sn *Snap) *Formula {
 		if sn.Recv == nil {
 			return nil
+		}
+		if sn.Recv.K == KNil {
+			return fFalse // a method call on a value that is nil on this path
 		}
 		return nn(sn.Recv)
 	}, nil)
